@@ -43,7 +43,8 @@ def scenario(r: random.Random) -> list[list[dict[str, Any]]]:
     if not any(a["a"] == "append" for a in progs[0]):
         progs[0].append({"a": "append", "recs": [{"w": 0, "i": 50, "pad": "v" * r.choice([0, 9])}]})
     for t in range(1, nth):
-        progs[t].append({"a": "read", "from": 0})   # a survivor may read before anybody repairs the tail
+        # the continuation after the victim's death: a survivor may read before anybody repairs the tail
+        progs[t].append({"a": "read", "from": 0, "after_victim": True})
         progs[t].append({"a": "append", "recs": [{"w": t, "i": 90, "pad": ""}]})
         progs[t].append({"a": "append", "recs": [{"w": t, "i": 91, "pad": "s"}]})
         progs[t].append({"a": "read", "from": 0})
